@@ -67,7 +67,12 @@ class World:
                 continue
             for _p, it in all_items(items):
                 if it["k"] == "Enum":
-                    self.enums[it["name"]] = [v["name"] for v in it["variants"]]
+                    if it["name"] in self.enums:
+                        # two enums of one name in the files of this world (an AST kind and its IR counterpart):
+                        # values are told apart by their variant, the variant lists are joined
+                        self.enums[it["name"]] = self.enums[it["name"]] + [v["name"] for v in it["variants"] if v["name"] not in self.enums[it["name"]]]
+                    else:
+                        self.enums[it["name"]] = [v["name"] for v in it["variants"]]
                     self.enum_derives[it["name"]] = " ".join(it.get("attrs", []))
                 elif it["k"] == "StructDef":
                     self.structs[it["name"]] = [x["name"] for x in it["fields"]]
@@ -442,6 +447,8 @@ class World:
                     return self.call_fn(self.methods[(ty, m)][0], args)
             if lp in self.structs and len(self.structs[lp]) == len(args):
                 return S(lp, *args)
+            if len(segs) >= 2 and segs[-2] in self.enums and lp in self.enums[segs[-2]] and p not in env:
+                return S(lp, *args)  # a tuple variant of a known enum
             raise Unsupported("call " + p)
         if k == "MethodCall":
             recv = self.eval(e["recv"], env, uses)
@@ -524,6 +531,8 @@ class World:
                 return self.eval(cl["body"], cenv, uses)
             except ReturnEx as r:
                 return r.v
+        if isinstance(f, tuple) and f[0] == "PY":
+            return f[1](*args)
         raise Unsupported("call of a non-closure")
 
     def list_method(self, recv, m, args, uses):
